@@ -514,3 +514,12 @@ func CancelAfter(cancel func(), ms int) {
 
 // SetTicks bounds how many times a ticker case may be chosen by select on each symbolic path.
 func SetTicks(n int) {}
+
+// MutexHeld reports whether m is currently locked (native: TryLock probe; engine: ghost flag).
+func MutexHeld(m *sync.Mutex) bool {
+	if m.TryLock() {
+		m.Unlock()
+		return false
+	}
+	return true
+}
